@@ -44,7 +44,7 @@ static void pval(const void *p, size_t n) { if (n <= 24) hx_print(stdout, p, n);
 static struct { int mode; int called; int hadold; uint8_t *old; size_t oldsz; } phs;
 static iwrc ph_fn(const struct iwkv_val *key, const struct iwkv_val *val, struct iwkv_val *oldval, void *op) {
   phs.called = 1;
-  if (oldval) { phs.hadold = 1; phs.oldsz = oldval->size; phs.old = malloc(oldval->size + 1); memcpy(phs.old, oldval->data, oldval->size); iwkv_val_dispose(oldval); }
+  if (oldval) { phs.hadold = 1; phs.oldsz = oldval->size; phs.old = malloc(oldval->size + 1); if (oldval->size) memcpy(phs.old, oldval->data, oldval->size); iwkv_val_dispose(oldval); }
   return phs.mode == 2 ? IW_ERROR_FAIL : 0;
 }
 static void ph_report(void) {
@@ -132,7 +132,9 @@ int main(int argc, char **argv) {
       IWDB db = dbs[atoi(w[1])];
       size_t kl, vl; uint8_t *k = hx_parse(w[2], &kl), *v = hx_parse(w[4], &vl);
       struct iwkv_val key = { .data = k, .size = kl, .compound = strtoll(w[3], 0, 10) }, val = { .data = v, .size = vl };
-      int lvl = atoi(w[6]); iwkv_next_level = (int8_t) lvl;
+      int lvl = atoi(w[6]);
+      if (db) while (lvl > 0 && db->lcnt[lvl - 1] == 0) --lvl;   // same clamping as _sblk_genlevel applies to drawn levels
+      iwkv_next_level = (int8_t) lvl;
       int ph = n > 7 ? atoi(w[7]) : 0;
       memset(&phs, 0, sizeof phs); phs.mode = ph;
       iwrc rc = db ? iwkv_puth(db, &key, &val, (iwkv_opflags) atoi(w[5]), ph ? ph_fn : 0, 0) : IW_ERROR_INVALID_ARGS;
